@@ -390,7 +390,7 @@ func runR103(c *core.Ctx) {
 	}
 	isAbort := func(ins ssa.Instruction) bool {
 		cc := ssax.CallOf(ins)
-		return cc != nil && ssax.CalleeName(cc) == core.Mod+"/server.abort"
+		return isAbortCallee(cc)
 	}
 	isOrcaError := func(ins ssa.Instruction) bool {
 		cc := ssax.CallOf(ins)
